@@ -154,6 +154,7 @@ func (ch *serverChannel) Request(ctx async.Context) (prpc.Request, status.Status
 // The method blocks until a message is received, or the channel is closed.
 // The message is valid until the next call to Receive/ReceiveAsync.
 func (ch *serverChannel) Receive(ctx async.Context) ([]byte, status.Status) {
+	var wait <-chan struct{}
 	for {
 		msg, ok, st := ch.ReceiveAsync(ctx)
 		switch {
@@ -163,11 +164,18 @@ func (ch *serverChannel) Receive(ctx async.Context) ([]byte, status.Status) {
 			return msg, status.OK
 		}
 
+		// Arm the wait and poll again, a message may have arrived in between
+		if wait == nil {
+			wait = ch.ReceiveWait()
+			continue
+		}
+
 		select {
 		case <-ctx.Wait():
 			return nil, ctx.Status()
-		case <-ch.ReceiveWait():
+		case <-wait:
 		}
+		wait = nil
 	}
 }
 
